@@ -199,6 +199,54 @@ def h_de(P, n=4):
     P.oblige("de.same_survivors", outs[0] == outs[1])
 
 
+def h_pbest(P, n=4):
+    """SHADE's current-to-pbest mutation with shared draws: the donors must be the same vectors in the two formulations
+    (ties in fitness included: the ranking must not depend on the formulation)."""
+    from pyhms.core.population import Population
+    from pyhms.demes.single_pop_eas import de as de_mod
+
+    A, B, pa, pb = _twins(P, n)
+    P.env.patch(de_mod, "apply_bounds", lambda genomes, bounds, method: genomes)
+    P.note_stub("apply_bounds = identity inside this twin (the donors are compared before the repair)")
+    pick = P.ints("pbest_pick", (n,), 0, 1)
+    parents = P.ints("parents", (n, 3), 0, n - 2)
+    for i in range(n):
+        for a in range(3):
+            for b in range(a + 1, 3):
+                P.assume(parents[i, a] != parents[i, b])
+    outs = []
+    for pop in (A, B):
+        calls = {"choice": 0}
+
+        class Rnd:
+            @staticmethod
+            def choice(a, size=None, replace=True, p=None):
+                from symx import arr
+                pool = np.asarray(arr._objarr(a))
+                k = calls["choice"]
+                calls["choice"] += 1
+                if P.concrete:
+                    if size is None:
+                        return int(pool[int(pick[k % n])])
+                    return np.array([int(pool[int(parents[(k - n) % n, j])]) for j in range(3)], dtype=np.int64)
+                if size is None:
+                    return arr._select_axis0(pool.astype(object), pick[k % n])
+                row = (k - n) % n
+                vals = [arr._select_axis0(pool.astype(object), parents[row, j]) for j in range(3)]
+                out = np.empty(3, dtype=object)
+                for j in range(3):
+                    out[j] = vals[j]
+                return out.view(arr.SArr)
+
+        old = de_mod.np
+        P.env.patch(de_mod, "np", _Np(old, Rnd))
+        res = de_mod.CurrentToPBestMutation()(Population.from_individuals(pop), None, np.full((n, 1), 0.5), np.full(n, 0.5))
+        P.env.patch(de_mod, "np", old)
+        outs.append(res)
+    for i in range(n):
+        P.oblige("shade.pbest_donor_same", outs[0].genomes[i, 0] == outs[1].genomes[i, 0])
+
+
 def h_r5s(P, n=6):
     from pyhms.utils.r5s import R5SSelection
 
@@ -329,6 +377,7 @@ def cases(tier):
         dict(name=f"best.n{n + 1}", fn=h_best, params=dict(n=n + 1), **R),
         dict(name="nbc.n3.d1", fn=h_nbc, params=dict(n=3, d=1), **R),
         dict(name="de.n2", fn=h_de, params=dict(n=2), **R),
+        dict(name="shade.pbest.n4", fn=h_pbest, params=dict(n=4), weight=20, **R),
         dict(name="r5s.n6", fn=h_r5s, params=dict(n=6), weight=30, **R),
         dict(name="cma.direction", fn=h_cma_direction, params=dict(lam=2), **R),
         dict(name="local.direction", fn=h_local_direction, params=dict(), **R),
